@@ -457,6 +457,12 @@ class Parser(object):
                 t[0] = t[1] * t[3]
             elif t[2] == '/':
                 t[0] = t[1] // t[3]
+            elif t[2] == '<<' and t[3] > 1024:
+                self._parser_error(
+                    'shift count too large',
+                    t.lineno(1), t.lexpos(1)
+                )
+                t[0] = 0
             elif t[2] == '<<':
                 t[0] = t[1] << t[3]
             elif t[2] == '>>':
